@@ -142,14 +142,222 @@ def eventName (e : Nat) : String :=
   | some s => slotName s
   | none => s!"event{e}"
 
+structure SessR where
+  agree : Bool
+  spec : Bool
+  why : String
+  sig : String
+  cover : List String
+  dyn : Dyn B
+  mres : String
+
+/-- One session of a created stub (`hd`), starting from mutable state `d0`: model agreement and
+    the history-independent property predicates, from this session's input and observation
+    alone (plus the plugin type). Used once per "session" case and once per session of a
+    "restart" case. -/
+def judgeSession (p : Plugin) (hd : Handlers) (implMask : Nat) (name idx : String) (d0 : Dyn B)
+    (inp obs : Json) : Except String SessR := do
+  let cfg ← getObj inp "cfg"
+  let reqs ← getArr inp "reqs"
+  let note := getStrD obs "note"
+  let oStart := getStrD obs "start"
+  let mut cover : List String := []
+  let mut agree := true
+  let mut spec := true
+  let mut why := ""
+  let mut sig := ""
+  if note.startsWith "crashed" || note.startsWith "blocked" || oStart == "blocked" || note == "stop blocked" then
+    return { agree := false, spec := false, why := s!"implementation {if note == "" then "blocked in Start" else note}",
+             sig := "C15:hang-or-crash", cover := ["hang-or-crash"], dyn := d0, mres := "" }
+  if note.startsWith "harness" then
+    return { agree := false, spec := true, why := note, sig := "", cover := [], dyn := d0, mres := "" }
+  -- registration carries the configured identity through
+  if getStrD obs "regname" != name || getStrD obs "regidx" != idx then
+    agree := false
+    why := s!"registered as {getStrD obs "regidx"}-{getStrD obs "regname"}, configured {idx}-{name}"
+  -- configuration -----------------------------------------------------------------
+  let asked : Nat ← getNat cfg "events"
+  let cerr := getStrD cfg "err"
+  let cb : Behaviour B := fun _ _ => { events := BitVec.ofNat 32 asked, err := if cerr == "" then none else some (S cerr) }
+  let cc ← getStr cfg "config"
+  let cr ← getStr cfg "rname"
+  let cv ← getStr cfg "rver"
+  let regto ← getInt cfg "regto"
+  let reqto ← getInt cfg "reqto"
+    let o := dispatch hd cb d0 (.configure (S cc) (S cr) (S cv) regto reqto)
+  let mCalls := o.calls.map callS
+  let mRes := resultS o.result
+  let oCfgCalls ← obsCalls obs "cfgcalls"
+  let oCfgErr ← getErr obs "cfgerr"
+  let oEvents ← getNat obs "cfgevents"
+  let oRes := if oCfgErr.set then
+      (if oCfgErr.kind == "handler" then "err:handler:" ++ oCfgErr.msg
+       else if oCfgErr.kind == "unhandled" then s!"err:unhandled:{oCfgErr.extra}" else s!"err:{oCfgErr.kind}")
+    else s!"ok:configure({oEvents})"
+  if mCalls != oCfgCalls then
+    agree := false
+    if why == "" then why := s!"configure calls: model {mCalls} impl {oCfgCalls}"
+  -- The message text of the unhandled-events error is the stub's own; compare the bits only if
+  -- it carried them. A failed Configure makes Start tear the connection down while the ttRPC
+  -- server is still about to send the error status: the runtime end sees either that status
+  -- or a closed connection (a race in the implementation; both mean "rejected").
+  let mFailed := mRes.startsWith "err:"
+  let resAgree := mRes == oRes ||
+    (oCfgErr.set && oCfgErr.kind == "unhandled" && oCfgErr.extra == -1 && mRes.startsWith "err:unhandled:") ||
+    (mFailed && oCfgErr.set && oCfgErr.kind == "transport")
+  if mFailed && oCfgErr.set then
+    cover := (if oCfgErr.kind == "transport" then "configure-rejected:connection-closed" else "configure-rejected:status") :: cover
+  if !resAgree then
+    agree := false
+    if why == "" then why := s!"configure result: model {mRes} impl {oRes}"
+  let startOk := match o.result with | .ok _ => true | .error _ => false
+  if startOk != (oStart == "ok") then
+    agree := false
+    if why == "" then why := s!"start: model {if startOk then "ok" else "error"} impl {oStart}"
+  if o.dyn.regTimeoutNs != getIntD obs "regtons" || o.dyn.reqTimeoutNs != getIntD obs "reqtons" then
+    agree := false
+    if why == "" then why := s!"timeouts: model {o.dyn.regTimeoutNs}/{o.dyn.reqTimeoutNs} impl {getIntD obs "regtons"}/{getIntD obs "reqtons"}"
+  -- spec: subscription (directly on the observation)
+  let eff : Nat := if p.configure then asked else 0
+  let within := (eff &&& implMask) == eff     -- asked ⊆ implemented (both < 2^32)
+  let maskClass :=
+    if !p.configure then "mask:no-configure"
+    else if cerr != "" then "mask:configure-error"
+    else if asked == 0 then "mask:zero"
+    else if asked == implMask then "mask:exact"
+    else if within then "mask:subset"
+    else if (asked &&& implMask) == 0 then "mask:disjoint"
+    else if (asked &&& implMask) == implMask then "mask:superset"
+    else "mask:overlap"
+  cover := maskClass :: cover
+  if p.configure && cerr != "" then
+    if !(oCfgErr.set && ((oCfgErr.kind == "handler" && oCfgErr.msg == cerr) || oCfgErr.kind == "transport")) then
+      spec := false; sig := "C15:configure:error-not-passed"
+      why := s!"Configure failed with '{cerr}', runtime saw {oRes}"
+    if oCfgCalls != [s!"Configure:config({cc}|{cr}|{cv})"] then
+      spec := false; sig := "C15:configure:call"
+      why := s!"Configure invocations {oCfgCalls}"
+  else
+    if p.configure && oCfgCalls != [s!"Configure:config({cc}|{cr}|{cv})"] then
+      spec := false; sig := "C15:configure:call"
+      why := s!"Configure invocations {oCfgCalls}, sent ({cc}|{cr}|{cv})"
+    if !p.configure && oCfgCalls != [] then
+      spec := false; sig := "C15:configure:call"
+      why := s!"no Configure method, yet invocations {oCfgCalls}"
+    if eff == 0 then
+      -- subscribed to exactly the implemented events: bit e-1 ⇔ handler for e, nothing else
+      if oCfgErr.set || oEvents != implMask then
+        spec := false
+        let diff := if oCfgErr.set then 0 else oEvents ^^^ implMask
+        let e := (List.range 32).find? (fun i => diff.testBit i) |>.getD 0
+        sig := if oCfgErr.set then "C15:mask:error" else s!"C15:mask:{eventName (e + 1)}"
+        why := s!"handlers {implMask} (bits), subscribed {oRes}"
+    else if within then
+      if oCfgErr.set || oEvents != eff then
+        spec := false; sig := "C15:configure:subset-not-honoured"
+        why := s!"implemented {implMask}, asked {eff} (a subset), got {oRes}"
+    else
+      if !oCfgErr.set then
+        spec := false; sig := "C15:configure:unhandled-accepted"
+        why := s!"implemented {implMask}, asked {eff} (names an event without handler), accepted with {oEvents}"
+  if !startOk then
+    return { agree, spec, why, sig, cover, dyn := o.dyn, mres := mRes }
+  -- requests ----------------------------------------------------------------------
+  let oReqs ← getArr obs "reqs"
+  if oReqs.length != reqs.length then
+    agree := false
+    if why == "" then why := s!"{reqs.length} requests sent, {oReqs.length} observed"
+  let mut d := o.dyn
+  -- spec-side bookkeeping of collected synchronisation chunks
+  let mut accP : List B := []
+  let mut accC : List B := []
+  for (q, ro) in reqs.zip oReqs do
+    let (rq, script, op) ← decReq q
+    let b : Behaviour B := fun _ _ => script
+    let out := dispatch hd b d rq
+    d := out.dyn
+    let mC := out.calls.map callS
+    let mR := resultS out.result
+    let oC ← obsCalls ro "calls"
+    let oR ← obsResultS op ro
+    if mC != oC then
+      agree := false
+      if why == "" then why := s!"{op} calls: model {mC} impl {oC}"
+    if mR != oR then
+      agree := false
+      if why == "" then why := s!"{op} result: model {mR} impl {oR}"
+    -- spec, directly on the observation ------------------------------------------
+    let scriptErr := getStrD q "err"
+    match rq with
+    | .synchronize pods ctrs more =>
+      cover := s!"op:Synchronize:{if more then "more" else "final"}" :: cover
+      if !p.synchronize then
+        if !(oC.isEmpty && oR == s!"ok:synchronize([],{more})") then
+          spec := false; sig := "C15:sync:no-handler"
+          why := s!"no Synchronize method: calls {oC}, reply {oR}"
+      else if more then
+        accP := accP ++ pods; accC := accC ++ ctrs
+        if !(oC.isEmpty && oR == "ok:synchronize([],true)") then
+          spec := false; sig := "C15:sync:chunk"
+          why := s!"More chunk: calls {oC}, reply {oR}"
+      else
+        let want := s!"Synchronize:sync({listS (accP ++ pods)};{listS (accC ++ ctrs)})"
+        accP := []; accC := []
+        let wantR := if scriptErr != "" then "err:handler:" ++ scriptErr
+                     else s!"ok:synchronize({listS script.updates},false)"
+        if oC != [want] then
+          spec := false; sig := "C15:sync:deliver"
+          why := s!"final chunk: calls {oC}, expected [{want}]"
+        else if oR != wantR then
+          spec := false; sig := "C15:sync:passthrough"
+          why := s!"Synchronize returned {wantR}, runtime saw {oR}"
+    | .shutdown =>
+      cover := "op:Shutdown" :: cover
+      let want := if p.shutdown then ["Shutdown:none()"] else []
+      if oC != want || oR != "ok:empty" then
+        spec := false; sig := "C15:shutdown"
+        why := s!"Shutdown: calls {oC}, reply {oR}"
+    | .configure .. => pure ()
+    | _ =>
+      let e : Nat := (← getInt q "event").toNat
+      let msg : Msg B := ⟨optStr q "pod", optStr q "ctr", optStr q "res", optStr q "ovh"⟩
+      -- is this the request the runtime uses for event e?
+      let proper := match slotOfEvent e with
+        | some _ => (op == "StateChange") == !(e == 4 || e == 8 || e == 10 || e == 12)
+        | none => false
+      if proper then
+        let s := (slotOfEvent e).getD .shutdown
+        let has := implMask.testBit (e - 1)
+        cover := s!"op:{slotName s}:{if has then "handled" else "absent"}" :: cover
+        if scriptErr != "" && has then cover := "reply:error" :: cover
+        let wantC := if has then [callS ⟨s, argsFor e msg⟩] else []
+        let wantR := if has then
+            (if scriptErr != "" then "err:handler:" ++ scriptErr else "ok:" ++ replyS (replyFor e script))
+          else "ok:" ++ replyS (emptyReplyFor (β := B) e)
+        if oC != wantC then
+          spec := false; sig := s!"C15:dispatch:{slotName s}"
+          why := s!"event {slotName s} (handler {if has then "present" else "absent"}): invoked {oC}, expected {wantC}"
+        else if oR != wantR then
+          spec := false; sig := s!"C15:passthrough:{slotName s}"
+          why := s!"event {slotName s}: handler returned {wantR}, runtime saw {oR}"
+      else
+        cover := s!"op:StateChange:foreign" :: cover
+        if !(oC.isEmpty && oR == "ok:empty") then
+          spec := false; sig := "C15:dispatch:foreign-event"
+          why := s!"StateChange with event {e} (no notification handler exists): invoked {oC}, reply {oR}"
+  let extra ← obsCalls obs "extra"
+  if !extra.isEmpty then
+    agree := false; spec := false; sig := "C15:dispatch:stray"
+    why := s!"invocations after the last reply: {extra}"
+  -- the session ends (Stop, or the connection is lost): `close()` drops collected chunks
+  return { agree, spec, why, sig, cover, dyn := { d with syncReq := none }, mres := mRes }
+
 def judge (j : Json) : Except String Verdict := do
   let inp ← getObj j "in"
   let obs ← getObj j "obs"
   let ty ← getNat inp "type"
   let p : Plugin := { ev := BitVec.ofNat 13 ty, configure := ty / 8192 % 2 == 1,
                       synchronize := ty / 16384 % 2 == 1, shutdown := ty / 32768 % 2 == 1 }
-  let cfg ← getObj inp "cfg"
-  let reqs ← getArr inp "reqs"
   let name ← getStr inp "name"
   let idx ← getStr inp "idx"
   let note := getStrD obs "note"
@@ -157,7 +365,8 @@ def judge (j : Json) : Except String Verdict := do
   let oStart := getStrD obs "start"
   let implMask : Nat := ty % 8192
   let popcount : Nat := ((List.range 13).filter (fun i => (ty % 8192).testBit i)).length
-  let mut cover : List String := ["session", s!"handlers:{popcount}",
+  let kind := getStrD inp "kind"
+  let mut cover : List String := [kind, s!"handlers:{popcount}",
     s!"aux:{(if p.configure then "C" else "-") ++ (if p.synchronize then "S" else "-") ++ (if p.shutdown then "D" else "-")}"]
   let mut agree := true
   let mut spec := true
@@ -188,187 +397,44 @@ def judge (j : Json) : Except String Verdict := do
     if oCreate != "ok" then
       return { agree := false, spec, why := if why == "" then s!"model: creation succeeds; impl: {oCreate}" else why,
                sig, cover, nontrivial := true }
-    -- registration carries the configured identity through
-    if getStrD obs "regname" != name || getStrD obs "regidx" != idx then
-      agree := false
-      why := s!"registered as {getStrD obs "regidx"}-{getStrD obs "regname"}, configured {idx}-{name}"
-    -- configuration -----------------------------------------------------------------
-    let asked : Nat ← getNat cfg "events"
-    let cerr := getStrD cfg "err"
-    let cb : Behaviour B := fun _ _ => { events := BitVec.ofNat 32 asked, err := if cerr == "" then none else some (S cerr) }
-    let cc ← getStr cfg "config"
-    let cr ← getStr cfg "rname"
-    let cv ← getStr cfg "rver"
-    let regto ← getInt cfg "regto"
-    let reqto ← getInt cfg "reqto"
-    let d0 : Dyn B := {}
-    let o := dispatch hd cb d0 (.configure (S cc) (S cr) (S cv) regto reqto)
-    let mCalls := o.calls.map callS
-    let mRes := resultS o.result
-    let oCfgCalls ← obsCalls obs "cfgcalls"
-    let oCfgErr ← getErr obs "cfgerr"
-    let oEvents ← getNat obs "cfgevents"
-    let oRes := if oCfgErr.set then
-        (if oCfgErr.kind == "handler" then "err:handler:" ++ oCfgErr.msg
-         else if oCfgErr.kind == "unhandled" then s!"err:unhandled:{oCfgErr.extra}" else s!"err:{oCfgErr.kind}")
-      else s!"ok:configure({oEvents})"
-    if mCalls != oCfgCalls then
-      agree := false
-      if why == "" then why := s!"configure calls: model {mCalls} impl {oCfgCalls}"
-    -- The message text of the unhandled-events error is the stub's own; compare the bits only if
-    -- it carried them. A failed Configure makes Start tear the connection down while the ttRPC
-    -- server is still about to send the error status: the runtime end sees either that status
-    -- or a closed connection (a race in the implementation; both mean "rejected").
-    let mFailed := mRes.startsWith "err:"
-    let resAgree := mRes == oRes ||
-      (oCfgErr.set && oCfgErr.kind == "unhandled" && oCfgErr.extra == -1 && mRes.startsWith "err:unhandled:") ||
-      (mFailed && oCfgErr.set && oCfgErr.kind == "transport")
-    if mFailed && oCfgErr.set then
-      cover := (if oCfgErr.kind == "transport" then "configure-rejected:connection-closed" else "configure-rejected:status") :: cover
-    if !resAgree then
-      agree := false
-      if why == "" then why := s!"configure result: model {mRes} impl {oRes}"
-    let startOk := match o.result with | .ok _ => true | .error _ => false
-    if startOk != (oStart == "ok") then
-      agree := false
-      if why == "" then why := s!"start: model {if startOk then "ok" else "error"} impl {oStart}"
-    if o.dyn.regTimeoutNs != getIntD obs "regtons" || o.dyn.reqTimeoutNs != getIntD obs "reqtons" then
-      agree := false
-      if why == "" then why := s!"timeouts: model {o.dyn.regTimeoutNs}/{o.dyn.reqTimeoutNs} impl {getIntD obs "regtons"}/{getIntD obs "reqtons"}"
-    -- spec: subscription (directly on the observation)
-    let eff : Nat := if p.configure then asked else 0
-    let within := (eff &&& implMask) == eff     -- asked ⊆ implemented (both < 2^32)
-    let maskClass :=
-      if !p.configure then "mask:no-configure"
-      else if cerr != "" then "mask:configure-error"
-      else if asked == 0 then "mask:zero"
-      else if asked == implMask then "mask:exact"
-      else if within then "mask:subset"
-      else if (asked &&& implMask) == 0 then "mask:disjoint"
-      else if (asked &&& implMask) == implMask then "mask:superset"
-      else "mask:overlap"
-    cover := maskClass :: cover
-    if p.configure && cerr != "" then
-      if !(oCfgErr.set && ((oCfgErr.kind == "handler" && oCfgErr.msg == cerr) || oCfgErr.kind == "transport")) then
-        spec := false; sig := "C15:configure:error-not-passed"
-        why := s!"Configure failed with '{cerr}', runtime saw {oRes}"
-      if oCfgCalls != [s!"Configure:config({cc}|{cr}|{cv})"] then
-        spec := false; sig := "C15:configure:call"
-        why := s!"Configure invocations {oCfgCalls}"
-    else
-      if p.configure && oCfgCalls != [s!"Configure:config({cc}|{cr}|{cv})"] then
-        spec := false; sig := "C15:configure:call"
-        why := s!"Configure invocations {oCfgCalls}, sent ({cc}|{cr}|{cv})"
-      if !p.configure && oCfgCalls != [] then
-        spec := false; sig := "C15:configure:call"
-        why := s!"no Configure method, yet invocations {oCfgCalls}"
-      if eff == 0 then
-        -- subscribed to exactly the implemented events: bit e-1 ⇔ handler for e, nothing else
-        if oCfgErr.set || oEvents != implMask then
+    if kind == "restart" then
+      let sins ← getArr inp "sessions"
+      let sobs ← getArr obs "sessions"
+      if sobs.length != sins.length then
+        -- the worker stops driving a stub that hung; the hanging session itself is judged below
+        agree := false
+        if why == "" then why := s!"{sins.length} sessions scripted, {sobs.length} played"
+      let mut d : Dyn B := {}
+      let mut k := 0
+      let mut masks : List String := []
+      let mut pattern := ""
+      for (si, so) in sins.zip sobs do
+        let r ← judgeSession p hd implMask name idx d si so
+        d := r.dyn
+        cover := cover ++ r.cover ++ [s!"end:{getStrD si "end"}"]
+        let askedNow := getNatD ((getObj si "cfg").toOption.getD Json.null) "events"
+        if !r.agree then
+          agree := false
+          if why == "" then why := s!"session #{k} (after Configure answers {masks}): {r.why}"
+        if !r.spec && spec then
           spec := false
-          let diff := if oCfgErr.set then 0 else oEvents ^^^ implMask
-          let e := (List.range 32).find? (fun i => diff.testBit i) |>.getD 0
-          sig := if oCfgErr.set then "C15:mask:error" else s!"C15:mask:{eventName (e + 1)}"
-          why := s!"handlers {implMask} (bits), subscribed {oRes}"
-      else if within then
-        if oCfgErr.set || oEvents != eff then
-          spec := false; sig := "C15:configure:subset-not-honoured"
-          why := s!"implemented {implMask}, asked {eff} (a subset), got {oRes}"
-      else
-        if !oCfgErr.set then
-          spec := false; sig := "C15:configure:unhandled-accepted"
-          why := s!"implemented {implMask}, asked {eff} (names an event without handler), accepted with {oEvents}"
-    if !startOk then
-      return { agree, spec, why, sig, cover, nontrivial := true, model := Json.mkObj [("configure", mRes)] }
-    -- requests ----------------------------------------------------------------------
-    let oReqs ← getArr obs "reqs"
-    if oReqs.length != reqs.length then
-      agree := false
-      if why == "" then why := s!"{reqs.length} requests sent, {oReqs.length} observed"
-    let mut d := o.dyn
-    -- spec-side bookkeeping of collected synchronisation chunks
-    let mut accP : List B := []
-    let mut accC : List B := []
-    for (q, ro) in reqs.zip oReqs do
-      let (rq, script, op) ← decReq q
-      let b : Behaviour B := fun _ _ => script
-      let out := dispatch hd b d rq
-      d := out.dyn
-      let mC := out.calls.map callS
-      let mR := resultS out.result
-      let oC ← obsCalls ro "calls"
-      let oR ← obsResultS op ro
-      if mC != oC then
+          sig := r.sig ++ (if k > 0 then ":after-restart" else "")
+          why := s!"session #{k} of one stub, earlier sessions asked {masks}, this one asks {askedNow}: {r.why}"
+        masks := masks ++ [toString askedNow]
+        pattern := pattern ++ ((r.cover.find? (·.startsWith "mask:")).getD "mask:?") ++ ">"
+        k := k + 1
+      cover := s!"restart:sessions{sins.length}" :: cover
+      return { agree, spec, why, sig, cover := cover.eraseDups, nontrivial := true,
+               model := Json.mkObj [("pattern", pattern)] }
+    else
+      let r ← judgeSession p hd implMask name idx {} inp obs
+      if !r.agree then
         agree := false
-        if why == "" then why := s!"{op} calls: model {mC} impl {oC}"
-      if mR != oR then
-        agree := false
-        if why == "" then why := s!"{op} result: model {mR} impl {oR}"
-      -- spec, directly on the observation ------------------------------------------
-      let scriptErr := getStrD q "err"
-      match rq with
-      | .synchronize pods ctrs more =>
-        cover := s!"op:Synchronize:{if more then "more" else "final"}" :: cover
-        if !p.synchronize then
-          if !(oC.isEmpty && oR == s!"ok:synchronize([],{more})") then
-            spec := false; sig := "C15:sync:no-handler"
-            why := s!"no Synchronize method: calls {oC}, reply {oR}"
-        else if more then
-          accP := accP ++ pods; accC := accC ++ ctrs
-          if !(oC.isEmpty && oR == "ok:synchronize([],true)") then
-            spec := false; sig := "C15:sync:chunk"
-            why := s!"More chunk: calls {oC}, reply {oR}"
-        else
-          let want := s!"Synchronize:sync({listS (accP ++ pods)};{listS (accC ++ ctrs)})"
-          accP := []; accC := []
-          let wantR := if scriptErr != "" then "err:handler:" ++ scriptErr
-                       else s!"ok:synchronize({listS script.updates},false)"
-          if oC != [want] then
-            spec := false; sig := "C15:sync:deliver"
-            why := s!"final chunk: calls {oC}, expected [{want}]"
-          else if oR != wantR then
-            spec := false; sig := "C15:sync:passthrough"
-            why := s!"Synchronize returned {wantR}, runtime saw {oR}"
-      | .shutdown =>
-        cover := "op:Shutdown" :: cover
-        let want := if p.shutdown then ["Shutdown:none()"] else []
-        if oC != want || oR != "ok:empty" then
-          spec := false; sig := "C15:shutdown"
-          why := s!"Shutdown: calls {oC}, reply {oR}"
-      | .configure .. => pure ()
-      | _ =>
-        let e : Nat := (← getInt q "event").toNat
-        let msg : Msg B := ⟨optStr q "pod", optStr q "ctr", optStr q "res", optStr q "ovh"⟩
-        -- is this the request the runtime uses for event e?
-        let proper := match slotOfEvent e with
-          | some _ => (op == "StateChange") == !(e == 4 || e == 8 || e == 10 || e == 12)
-          | none => false
-        if proper then
-          let s := (slotOfEvent e).getD .shutdown
-          let has := implMask.testBit (e - 1)
-          cover := s!"op:{slotName s}:{if has then "handled" else "absent"}" :: cover
-          if scriptErr != "" && has then cover := "reply:error" :: cover
-          let wantC := if has then [callS ⟨s, argsFor e msg⟩] else []
-          let wantR := if has then
-              (if scriptErr != "" then "err:handler:" ++ scriptErr else "ok:" ++ replyS (replyFor e script))
-            else "ok:" ++ replyS (emptyReplyFor (β := B) e)
-          if oC != wantC then
-            spec := false; sig := s!"C15:dispatch:{slotName s}"
-            why := s!"event {slotName s} (handler {if has then "present" else "absent"}): invoked {oC}, expected {wantC}"
-          else if oR != wantR then
-            spec := false; sig := s!"C15:passthrough:{slotName s}"
-            why := s!"event {slotName s}: handler returned {wantR}, runtime saw {oR}"
-        else
-          cover := s!"op:StateChange:foreign" :: cover
-          if !(oC.isEmpty && oR == "ok:empty") then
-            spec := false; sig := "C15:dispatch:foreign-event"
-            why := s!"StateChange with event {e} (no notification handler exists): invoked {oC}, reply {oR}"
-    let extra ← obsCalls obs "extra"
-    if !extra.isEmpty then
-      agree := false; spec := false; sig := "C15:dispatch:stray"
-      why := s!"invocations after the last reply: {extra}"
-    return { agree, spec, why, sig, cover := cover.eraseDups, nontrivial,
-             model := Json.mkObj [("configure", mRes)] }
+        if why == "" then why := r.why
+      if !r.spec then
+        spec := false; sig := r.sig; why := r.why
+      return { agree, spec, why, sig, cover := (cover ++ r.cover).eraseDups, nontrivial,
+               model := Json.mkObj [("configure", r.mres)] }
 
 def main : IO UInt32 := runLines judge
 end Drv.C15
